@@ -1,3 +1,217 @@
+"""Entry point of ./check: setup, per-property checks, evidence, replay."""
+import os, sys, json, time, subprocess, hashlib, traceback
+
+ROOT = os.path.dirname(os.path.dirname(os.path.abspath(__file__)))
+sys.path.insert(0, os.path.join(ROOT, "lib"))
+import tlc as T
+
+HARNESS = os.path.join(ROOT, "harness")
+BIN = os.path.join(HARNESS, "target", "debug", "celconf")
+WORK = os.path.join(ROOT, "work")
+EVID = os.path.join(ROOT, "evidence")
+REPLAYS = os.path.join(ROOT, "replays")
+KF_FILE = os.path.join(ROOT, "known_findings.jsonl")
+
+LEVELS = {}
+
+
+def build_harness():
+    env = dict(os.environ)
+    env["CARGO_NET_OFFLINE"] = "true"
+    p = subprocess.run(["cargo", "build", "--offline", "--quiet"], cwd=HARNESS, env=env, stdout=subprocess.PIPE,
+                       stderr=subprocess.STDOUT, text=True)
+    if p.returncode != 0:
+        raise T.ToolError("harness build failed (is /repo's public API still what the harness uses?):\n" + p.stdout[-4000:])
+
+
+def celconf(args, timeout=3600, check=True):
+    p = subprocess.run(["timeout", str(timeout), BIN] + [str(a) for a in args], cwd=ROOT, stdout=subprocess.PIPE,
+                       stderr=subprocess.PIPE, text=True)
+    if p.returncode == 124:
+        raise T.ToolError("celconf timed out: %s" % args)
+    if check and p.returncode != 0:
+        raise T.ToolError("celconf failed (%d): %s\n%s" % (p.returncode, args, p.stderr[-3000:]))
+    return p
+
+
+def load_known():
+    out = []
+    if os.path.exists(KF_FILE):
+        for line in open(KF_FILE):
+            line = line.strip()
+            if line:
+                out.append(json.loads(line))
+    return out
+
+
+class Run:
+    """Accumulates what one check covered and found."""
+
+    def __init__(self, prop, tier, seed):
+        self.prop, self.tier, self.seed = prop, tier, seed
+        self.t0 = time.time()
+        self.evaluations = 0
+        self.nontrivial = set()
+        self.samples = []
+        self.states = 0
+        self.transitions = 0
+        self.traces = 0
+        self.violations = []
+        self.known_hits = {}
+        self.assumptions = []
+        self.extra = {}
+        self.exhaustive = False
+        self.rule = ""
+        self.level = "model_checking"
+        self.known = [k for k in load_known() if k.get("status") == "open" and prop in k.get("property", [])]
+        os.makedirs(WORK, exist_ok=True)
+
+    def q(self, quick, thorough):
+        return quick if self.tier == "quick" else thorough
+
+    def work(self, name):
+        d = os.path.join(WORK, self.prop)
+        os.makedirs(d, exist_ok=True)
+        return os.path.join(d, name)
+
+    def add_tlc(self, r):
+        self.states += r.distinct
+        self.transitions += r.generated
+
+    def note_case(self, key, nontrivial=True):
+        self.evaluations += 1
+        if nontrivial:
+            self.nontrivial.add(hashlib.sha1(key.encode()).hexdigest()[:16])
+
+    def sample(self, s):
+        if len(self.samples) < 6:
+            self.samples.append(s)
+
+    def violation(self, case, reason):
+        """Record a violation: writes the replay file and prints the VIOLATION line."""
+        for k in self.known:
+            if finding_matches(k, case, reason):
+                if k["id"] not in self.known_hits:
+                    self.known_hits[k["id"]] = k
+                    print("KNOWN-FINDING: property=%s %s %s" % (self.prop, k["id"], k.get("what", "")))
+                return
+        d = os.path.join(REPLAYS, self.prop)
+        os.makedirs(d, exist_ok=True)
+        n = len(self.violations) + 1
+        path = os.path.join(d, "case_%s_%d_%d.json" % (self.tier, self.seed, n))
+        json.dump({"property": self.prop, "seed": self.seed, "tier": self.tier, "reason": reason, "case": case},
+                  open(path, "w"), indent=1)
+        self.violations.append(path)
+        if len(self.violations) <= 20:
+            print("VIOLATION property=%s replay=%s" % (self.prop, path))
+            print("  reason: %s" % reason[:300])
+            sys.stdout.flush()
+
+    def finish(self):
+        ev = {
+            "property_id": self.prop,
+            "tier": self.tier,
+            "seed": self.seed,
+            "level": self.level,
+            "coverage": {
+                "evaluations": self.evaluations,
+                "distinct_nontrivial": len(self.nontrivial),
+                "rule": self.rule,
+                "samples": self.samples or ["(none)"],
+                "states": self.states,
+                "transitions": self.transitions,
+                "traces_validated_against_impl": self.traces,
+                "exhaustive": self.exhaustive,
+                "checker_cmd": "tlc (TLC 1.8.0) on spec/*.tla via ./check %s --tier %s" % (self.prop, self.tier),
+                "trusted_base": ["TLC 1.8.0 + CommunityModules (Json, IOUtils)", "the harness encoder (harness/src/enc.rs)", "rustc/cargo"],
+                "known_findings_hit": sorted(self.known_hits.keys()),
+            },
+            "assumptions": self.assumptions,
+            "wall_s": round(time.time() - self.t0, 2),
+            "violations": len(self.violations),
+        }
+        ev["coverage"].update(self.extra)
+        os.makedirs(EVID, exist_ok=True)
+        json.dump(ev, open(os.path.join(EVID, self.prop + ".json"), "w"), indent=1)
+        for k in self.known:
+            if k["id"] not in self.known_hits:
+                print("KNOWN-FINDING-STALE: property=%s %s did not reproduce in this run" % (self.prop, k["id"]))
+        print("%s %s: %d evaluations, %d distinct non-trivial, %d states, %d traces/vectors validated, %d violation(s), %.1fs" % (
+            self.prop, self.tier, self.evaluations, len(self.nontrivial), self.states, self.traces, len(self.violations), time.time() - self.t0))
+        return 1 if self.violations else 0
+
+
+def finding_matches(k, case, reason):
+    """A known finding lists literal conditions on the failing case (see known_findings.jsonl)."""
+    m = k.get("match", {})
+    blob = json.dumps(case, sort_keys=True) if not isinstance(case, str) else case
+    if "reason_contains" in m and m["reason_contains"] not in reason:
+        return False
+    for s in m.get("case_contains", []):
+        if s not in blob:
+            return False
+    if "src_regex" in m:
+        import re
+        src = case.get("src", "") if isinstance(case, dict) else ""
+        if not re.search(m["src_regex"], src):
+            return False
+    return bool(m)
+
+
+def setup():
+    build_harness()
+    bad = []
+    for f in sorted(os.listdir(T.SPEC)):
+        if f.endswith(".tla"):
+            ok, out = T.sany(f[:-4])
+            if not ok:
+                bad.append((f, out[-1500:]))
+    if bad:
+        for f, o in bad:
+            sys.stderr.write("SANY failed on %s\n%s\n" % (f, o))
+        return 2
+    print("setup ok: harness built, %d modules parsed" % len([f for f in os.listdir(T.SPEC) if f.endswith('.tla')]))
+    return 0
+
+
 def main(argv):
-    print("not built yet")
-    return 2
+    if not argv:
+        print("usage: ./check --setup | ./check <ID> [--tier quick|thorough] [--seed N] [--replay file]")
+        return 2
+    if argv[0] == "--setup":
+        try:
+            return setup()
+        except T.ToolError as e:
+            sys.stderr.write(str(e) + "\n")
+            return 2
+    prop = argv[0]
+    tier = os.environ.get("VERIF_TIER", "quick")
+    seed = int(os.environ.get("VERIF_SEED", "1"))
+    replay = None
+    i = 1
+    while i < len(argv):
+        if argv[i] == "--tier":
+            tier = argv[i + 1]; i += 2
+        elif argv[i] == "--seed":
+            seed = int(argv[i + 1]); i += 2
+        elif argv[i] == "--replay":
+            replay = argv[i + 1]; i += 2
+        else:
+            i += 1
+    import props
+    if prop not in props.CHECKS:
+        sys.stderr.write("no check for %s\n" % prop)
+        return 2
+    try:
+        build_harness()
+        if replay:
+            return props.replay(prop, replay)
+        run = Run(prop, tier, seed)
+        props.CHECKS[prop](run)
+        return run.finish()
+    except T.ToolError as e:
+        sys.stderr.write("TOOL ERROR: %s\n" % e)
+        return 2
+    except Exception:
+        traceback.print_exc()
+        return 2
